@@ -7,6 +7,9 @@ use crate::json::J;
 use crate::session::Session;
 
 pub mod c05;
+pub mod c07;
+pub mod c08;
+pub mod c11;
 
 pub type Ctr = BTreeMap<String, u64>;
 
@@ -71,7 +74,7 @@ pub trait Prop: Sync {
 }
 
 pub fn all() -> Vec<Box<dyn Prop>> {
-    vec![Box::new(c05::C05)]
+    vec![Box::new(c05::C05), Box::new(c07::C07), Box::new(c08::C08), Box::new(c11::C11)]
 }
 
 pub fn by_id(id: &str) -> Option<Box<dyn Prop>> {
@@ -107,4 +110,60 @@ pub fn snake_key(name: &str) -> String {
         }
     }
     result
+}
+
+// ---------------------------------------------------------------------------------------------
+// shared generators / helpers
+// ---------------------------------------------------------------------------------------------
+
+use crate::dom::{gen_doc, gen_skel, Doc, GenCfg, Skel};
+use crate::rng::Rng;
+use crate::session::RenderOpt;
+
+pub fn all_opts(derive: &str) -> Vec<RenderOpt> {
+    let mut v = Vec::new();
+    for sx in [false, true] {
+        for bn in [false, true] {
+            v.push(RenderOpt::preset(sx, bn, derive));
+        }
+    }
+    v
+}
+
+/// a history: k documents instantiated from one schema skeleton (common root)
+pub fn gen_history(rng: &mut Rng, cfg: &GenCfg, k: usize) -> (Skel, Vec<Doc>) {
+    let root = rng.pick(&["r", "root", "a", "Foo", "x:r", "type"]).to_string();
+    let mut budget = *rng.pick(&[2usize, 4, 6, 12]);
+    let sk = gen_skel(rng, cfg, &root, 0, &mut budget);
+    let mut docs = Vec::new();
+    for _ in 0..k {
+        // per-document variation of the instantiation knobs: a child repeated / absent only in a later document
+        let mut c = cfg.clone();
+        if rng.pct(30) {
+            c.p_absent = *rng.pick(&[0, 30, 60]);
+            c.p_multi = *rng.pick(&[0, 30, 50]);
+            c.p_attr_absent = *rng.pick(&[0, 20, 50]);
+            c.p_hollow = *rng.pick(&[0, 10, 30]);
+        }
+        docs.push(gen_doc(rng, &c, &sk));
+    }
+    (sk, docs)
+}
+
+pub fn skip(reason: &str) -> Exec {
+    Exec { violation: None, trace: 0, fingerprint: 0, nontrivial: false, sim_steps: 0, discarded: Some(reason.to_string()), shape: 0, env_sig: 0 }
+}
+
+/// cross-check of the generator against the reader: every generated document must be seen by quick-xml
+/// with exactly the structure of its DOM; otherwise the harness (not the code under test) is wrong
+pub fn crosscheck_docs(docs: &[&Doc]) -> Result<(), String> {
+    for d in docs {
+        let bytes = d.ser();
+        let seen = crate::verdict::structure_from_events(&bytes)
+            .map_err(|e| format!("generated document is not accepted by the reader: {e}: {}", String::from_utf8_lossy(&bytes)))?;
+        if seen != crate::verdict::structure_of(&d.root) {
+            return Err(format!("generated DOM and reader events disagree on {}", String::from_utf8_lossy(&bytes)));
+        }
+    }
+    Ok(())
 }
